@@ -1,0 +1,218 @@
+//go:build verif
+
+package lex
+
+import (
+	"reflect"
+
+	"github.com/grindlemire/go-lucene/internal/verifspec"
+)
+
+// Contracts of the lexer (properties C16, C08 link 1, C09 whitespace, C01
+// termination).  Directive comments are woven into an overlay copy of lex.go by
+// the verification engine; the Go functions below are the specification
+// vocabulary (pure, executable).
+
+// ---- specification functions --------------------------------------------------
+
+// IsWS: the bytes the lexer skips between tokens.
+func IsWS(b byte) bool { return b == ' ' || b == '\t' || b == '\r' || b == '\n' }
+
+// AllWS: every byte of s[lo:hi] is whitespace.
+func AllWS(s string, lo, hi int) bool {
+	return verifspec.Forall(lo, hi, func(i int) bool { return IsWS(s[i]) })
+}
+
+// LexOK is the internal invariant of the lexer's cursor.
+func LexOK(l *Lexer) bool {
+	return 0 <= l.start && l.start <= l.pos && l.pos <= len(l.input) &&
+		verifspec.OnBoundary(l.input, l.pos) &&
+		(!l.atEOF || l.pos == len(l.input))
+}
+
+// LexPub is the invariant that holds between calls of Lex, Next and Peek: an
+// EOF token in currItem means the input is exhausted (Peek's shortcut relies on it).
+func LexPub(l *Lexer) bool {
+	return LexOK(l) &&
+		(l.currItem.Typ != TEOF || (l.pos == len(l.input) && l.currItem.Val == "EOF"))
+}
+
+// SameState: two state functions are the same function.
+func SameState(a, b tokenStateFn) bool {
+	return verifspec.SameFn(a, b)
+}
+
+// StateRank orders the states of the Next state machine (termination of Next).
+func StateRank(f tokenStateFn) int {
+	if f == nil {
+		return 0
+	}
+	if SameState(f, lexSpace) {
+		return 3
+	}
+	if SameState(f, lexVal) {
+		return 2
+	}
+	return 1
+}
+
+// WordStart: runes on which lexVal hands over to lexWord directly.
+func WordStart(r rune) bool { return isAlphaNumeric(r) || isWildcard(r) || isEscape(r) }
+
+// EOFTok: currItem as Next pre-sets it.
+func EOFTok(t Token, pos int) bool { return t.Typ == TEOF && t.Val == "EOF" && t.pos == pos }
+
+// Reset: the state errorf leaves behind (the stream ends).
+func Reset(l *Lexer) bool { return l.input == "" && l.pos == 0 && l.start == 0 }
+
+// TokDone: a state function finished with a proper token for input[s:pos].
+func TokDone(l *Lexer, input string, s int) bool {
+	return l.input == input && l.currItem.Typ != TErr && l.currItem.Typ != TEOF && l.currItem.pos == s &&
+		s < l.pos && l.pos <= len(input) && l.start == l.pos && l.currItem.Val == input[s:l.pos]
+}
+
+// ErrDone: a state function finished with a lexical error.
+func ErrDone(l *Lexer, s int) bool {
+	return l.currItem.Typ == TErr && l.currItem.pos == s && Reset(l)
+}
+
+// NextInv is the invariant of the state loop in Next: p0 is the cursor on entry,
+// input the (unchanged) text.
+func NextInv(l *Lexer, state tokenStateFn, input string, p0 int) bool {
+	if state == nil {
+		return NextDone(l, input, p0)
+	}
+	if SameState(state, lexSpace) {
+		return LexOK(l) && l.input == input && l.pos == p0 && EOFTok(l.currItem, p0)
+	}
+	if SameState(state, lexVal) {
+		return LexOK(l) && l.input == input && p0 <= l.pos && l.pos < len(input) && AllWS(input, p0, l.pos) &&
+			!IsWS(input[l.pos]) && EOFTok(l.currItem, p0)
+	}
+	if SameState(state, lexWord) {
+		return LexOK(l) && l.input == input && p0 <= l.pos && l.pos < len(input) && AllWS(input, p0, l.pos) &&
+			l.start == l.pos && (WordStart(verifspec.RuneAt(input, l.pos)) || input[l.pos] == '-')
+	}
+	if SameState(state, lexPhrase) {
+		return LexOK(l) && l.input == input && p0 <= l.pos && l.pos < len(input) && AllWS(input, p0, l.pos) &&
+			l.start == l.pos && (input[l.pos] == '"' || input[l.pos] == '\'')
+	}
+	if SameState(state, lexRegexp) {
+		return LexOK(l) && l.input == input && p0 <= l.pos && l.pos < len(input) && AllWS(input, p0, l.pos) &&
+			l.start == l.pos && input[l.pos] == '/'
+	}
+	return false
+}
+
+// NextDone: what Next has achieved when the state machine stops.
+func NextDone(l *Lexer, input string, p0 int) bool {
+	t := l.currItem
+	if t.Typ == TEOF {
+		return LexOK(l) && l.input == input && l.pos == len(input) && AllWS(input, p0, len(input)) && t.Val == "EOF"
+	}
+	if t.Typ == TErr {
+		return p0 <= t.pos && t.pos < len(input) && AllWS(input, p0, t.pos) && Reset(l)
+	}
+	return LexOK(l) && p0 <= t.pos && AllWS(input, p0, t.pos) && TokDone(l, input, t.pos)
+}
+
+// NextOf is the token Next returns from state l (Next runs on a copy: l is a value).
+func NextOf(l Lexer) Token { return l.Next() }
+
+// executable meaning of verifspec.SameFn for this package's tests
+var _ = reflect.ValueOf
+
+// ---- contracts ------------------------------------------------------------------
+
+//@ func Lex
+//@   props C16
+//@   ensures result != nil && LexPub(result) && result.input == input && result.pos == 0 && !result.atEOF
+
+//@ func (*Lexer).next
+//@   props C16 C01
+//@   requires LexOK(l)
+//@   ensures  LexOK(l) && l.input == old(l.input) && l.start == old(l.start) && l.currItem == old(l.currItem)
+//@   ensures  old(l.pos) >= len(l.input) ==> result == eof && l.pos == old(l.pos) && l.atEOF
+//@   ensures  old(l.pos) < len(l.input) ==> result == verifspec.RuneAt(l.input, old(l.pos)) &&
+//@            l.pos == old(l.pos)+verifspec.WidthAt(l.input, old(l.pos)) && l.atEOF == old(l.atEOF)
+
+//@ func (*Lexer).backup
+//@   props C16
+//@   requires LexOK(l)
+//@   ensures  l.input == old(l.input) && l.start == old(l.start) && l.currItem == old(l.currItem) && l.atEOF == old(l.atEOF)
+//@   ensures  (old(l.atEOF) || old(l.pos) == 0) ==> l.pos == old(l.pos)
+//@   ensures  !(old(l.atEOF) || old(l.pos) == 0) ==> l.pos == old(l.pos)-verifspec.LastWidth(l.input, old(l.pos))
+
+//@ func (*Lexer).peek
+//@   props C16
+//@   requires LexOK(l)
+//@   ensures  LexOK(l) && l.input == old(l.input) && l.start == old(l.start) && l.currItem == old(l.currItem) && l.pos == old(l.pos)
+//@   ensures  old(l.pos) >= len(l.input) ==> result == eof && l.atEOF
+//@   ensures  old(l.pos) < len(l.input) ==> result == verifspec.RuneAt(l.input, l.pos) && l.atEOF == old(l.atEOF)
+
+//@ func lexSpace
+//@   props C16 C09 C01
+//@   requires LexOK(l)
+//@   ensures  LexOK(l) && l.input == old(l.input) && l.start == old(l.start) && l.currItem == old(l.currItem)
+//@   ensures  old(l.pos) <= l.pos && AllWS(l.input, old(l.pos), l.pos)
+//@   ensures  result == nil ==> l.pos == len(l.input)
+//@   ensures  result != nil ==> SameState(result, lexVal) && l.pos < len(l.input) && !IsWS(l.input[l.pos])
+//@   loop 0: invariant LexOK(l) && l.input == old(l.input) && l.start == old(l.start) && l.currItem == old(l.currItem)
+//@   loop 0: invariant old(l.pos) <= l.pos && AllWS(l.input, old(l.pos), l.pos)
+//@   loop 0: decreases len(l.input) - l.pos
+
+//@ func lexVal
+//@   props C16 C01
+//@   requires LexOK(l) && l.pos < len(l.input)
+//@   ensures  result == nil ==> (TokDone(l, old(l.input), old(l.pos)) && LexOK(l)) || ErrDone(l, old(l.pos))
+//@   ensures  result != nil ==> LexOK(l) && l.input == old(l.input) && l.pos == old(l.pos) && l.start == l.pos && l.currItem == old(l.currItem)
+//@   ensures  result != nil ==> (SameState(result, lexWord) && (WordStart(verifspec.RuneAt(l.input, l.pos)) || l.input[l.pos] == '-')) ||
+//@            (SameState(result, lexPhrase) && (l.input[l.pos] == '"' || l.input[l.pos] == '\'')) ||
+//@            (SameState(result, lexRegexp) && l.input[l.pos] == '/')
+
+//@ func lexWord
+//@   props C16 C01
+//@   requires LexOK(l) && l.start == l.pos && l.pos < len(l.input)
+//@   requires WordStart(verifspec.RuneAt(l.input, l.pos)) || l.input[l.pos] == '-'
+//@   ensures  result == nil && TokDone(l, old(l.input), old(l.pos)) && LexOK(l)
+//@   ensures  l.currItem.Typ == TLiteral || l.currItem.Typ == TAnd || l.currItem.Typ == TOr || l.currItem.Typ == TNot || l.currItem.Typ == TTO
+//@   loop 0: invariant LexOK(l) && l.input == old(l.input) && l.start == old(l.start) && old(l.pos) <= l.pos
+//@   loop 0: decreases len(l.input) - l.pos + verifspec.B2I(!l.atEOF)
+
+//@ func lexPhrase
+//@   props C16 C08 C01
+//@   requires LexOK(l) && l.start == l.pos && l.pos < len(l.input)
+//@   requires l.input[l.pos] == '"' || l.input[l.pos] == '\''
+//@   ensures  result == nil
+//@   ensures  (TokDone(l, old(l.input), old(l.pos)) && LexOK(l) && l.currItem.Typ == TQuoted) || ErrDone(l, old(l.pos))
+//@   ensures[first-closing-quote] l.currItem.Typ == TQuoted ==> l.pos >= old(l.pos)+2 && old(l.input)[l.pos-1] == old(l.input)[old(l.pos)] &&
+//@            verifspec.Forall(old(l.pos)+1, l.pos-1, func(i int) bool { return old(l.input)[i] != old(l.input)[old(l.pos)] })
+//@   ensures[error-iff-unterminated] l.currItem.Typ == TErr ==>
+//@            verifspec.Forall(old(l.pos)+1, len(old(l.input)), func(i int) bool { return old(l.input)[i] != old(l.input)[old(l.pos)] })
+//@   loop 0: invariant LexOK(l) && l.input == old(l.input) && l.start == old(l.start) && old(l.pos) < l.pos && !l.atEOF
+//@   loop 0: invariant open == rune(l.input[l.start]) && open < 128
+//@   loop 0: invariant verifspec.Forall(l.start+1, l.pos, func(i int) bool { return l.input[i] != l.input[l.start] })
+//@   loop 0: decreases len(l.input) - l.pos
+
+//@ func lexRegexp
+//@   props C16 C01
+//@   requires LexOK(l) && l.start == l.pos && l.pos < len(l.input) && l.input[l.pos] == '/'
+//@   ensures  result == nil
+//@   ensures  (TokDone(l, old(l.input), old(l.pos)) && LexOK(l) && l.currItem.Typ == TRegexp) || ErrDone(l, old(l.pos))
+//@   loop 0: invariant LexOK(l) && l.input == old(l.input) && l.start == old(l.start) && old(l.pos) < l.pos
+//@   loop 0: decreases len(l.input) - l.pos + verifspec.B2I(!l.atEOF)
+
+//@ func (*Lexer).Next
+//@   props C16 C09 C01
+//@   functional
+//@   requires LexOK(l)
+//@   ensures  NextDone(l, old(l.input), old(l.pos)) && result == l.currItem
+//@   ensures  LexPub(l)
+//@   loop 0: with state tokenStateFn
+//@   loop 0: invariant NextInv(l, state, old(l.input), old(l.pos))
+//@   loop 0: decreases StateRank(state)
+
+//@ func (Lexer).Peek
+//@   props C16
+//@   requires LexPub(&l)
+//@   ensures  result.Typ == NextOf(l).Typ && result.Val == NextOf(l).Val
